@@ -56,6 +56,20 @@ Check (C19_zst_accepted_shape :
     zst_status (UStruct s fs) = Some b ->
     exists init last, components s fs = init ++ [last]
       /\ Forall (fun c => zst_status c = Some true) init /\ zst_status last = Some b).
+Check (C19_zst_rejected_status :
+  forall (s : option Z) (fs init : list uty) (c : uty) (rest : list uty),
+    components s fs = init ++ c :: rest -> rest <> [] -> zst_status c <> Some true ->
+    zst_status (UStruct s fs) = None).
+Check (C19_zst_enum_value :
+  forall (vs : list (option uty)) (b : bool),
+    zst_status (UEnum vs) = Some b <->
+    (forall t, In (Some t) vs -> zst_status t <> None)
+    /\ (b = true <-> forall t, In (Some t) vs -> zst_status t = Some true)).
+Check (C19_zst_enum_rejected :
+  forall (s : option Z) (fs init : list uty) (vs : list (option uty)) (t : uty) (rest : list uty),
+    components s fs = init ++ UEnum vs :: rest -> rest <> [] ->
+    In (Some t) vs -> uty_wf t -> min_size t = 0 ->
+    zst_status (UStruct s fs) = None).
 Check (C19_valid_align1_plain :
   forall (fm : form) (c : bool) (fs : list fld),
     fm = FStruct \/ fm = FTuple -> forallb f_a1 fs = true ->
@@ -111,6 +125,9 @@ Print Assumptions C19_packed_no_padding.
 Print Assumptions C19_zst_rejected.
 Print Assumptions C19_zst_status_true_nonempty.
 Print Assumptions C19_zst_accepted_shape.
+Print Assumptions C19_zst_rejected_status.
+Print Assumptions C19_zst_enum_value.
+Print Assumptions C19_zst_enum_rejected.
 Print Assumptions C19_valid_align1_plain.
 Print Assumptions C19_valid_align1_packed.
 Print Assumptions C19_valid_align1_transparent.
